@@ -46,6 +46,14 @@ def clash_worlds(rng, n, o):
                         f2[2] = pool.pop()
                     new.append(f2)
                 c = replace_at(c, p, nd[:3] + new)
+        # virtual functions (also private ones) named like impl functions of other types
+        for p, nd in all_nodes(c):
+            if tag(nd) == 'vftable' and len(nd) > 2 and rng.random() < 0.5:
+                k = rng.randrange(2, len(nd))
+                f2 = list(nd[k]); f2[2] = rng.choice(['run', 'stop', 'get', 'size'])
+                if rng.random() < 0.5: f2[1] = S('priv')
+                if not any(x[2] == f2[2] for x in nd[2:]):
+                    c = replace_at(c, p, nd[:k] + [f2] + nd[k + 1:])
         out.append(c)
     return out
 
